@@ -144,10 +144,11 @@ func schedules(n, f uint64) map[string][]uint64 {
 
 var schedOrder = []string{"every", "skip3", "repeat", "single"}
 
-// chainSpec: chains of n blocks with every multiset of at most MaxItems log-carrying transactions,
-// each explored with every placement of at most K faults.
+// chainSpec: chains of n blocks with every multiset of MinItems..MaxItems log-carrying
+// transactions, each explored with every placement of at most K faults.
 type chainSpec struct {
 	N        uint64 `json:"blocks"`
+	MinItems int    `json:"min_log_txs"`
 	MaxItems int    `json:"max_log_txs"`
 	K        int    `json:"max_faults"`
 }
@@ -177,7 +178,7 @@ func generate(b bounds) []*Scenario {
 		n := cs.N
 		sch := schedules(n, fromBlock)
 		for di, d := range distributions(n) {
-			if len(d) > cs.MaxItems {
+			if len(d) < cs.MinItems || len(d) > cs.MaxItems {
 				continue
 			}
 			// the kind profile rotates with the distribution index
@@ -193,7 +194,7 @@ func generate(b bounds) []*Scenario {
 	for _, cs := range b.nodeChains {
 		n := cs.N
 		for di, d := range distributions(n) {
-			if len(d) > cs.MaxItems {
+			if len(d) < cs.MinItems || len(d) > cs.MaxItems {
 				continue
 			}
 			p := di % 3
